@@ -34,13 +34,14 @@ type item struct {
 type judgeFn func(w *check, c *core.Case) (class, detail string, st runStats)
 
 type runStats struct {
-	cycles   int64
-	probes   [32]int
-	sched    core.SchedStats
-	executed int
-	feat     uint64 // distinctness signature (0 = trivial)
-	pairs    int    // C12: state pairs compared
-	other    bool   // twin oracles: the failure is not attributable to this property
+	cycles                 int64
+	probes                 [32]int
+	sched                  core.SchedStats
+	executed               int
+	feat                   uint64 // distinctness signature (0 = trivial)
+	pairs                  int    // C12: state pairs compared
+	invChecked, invSkipped int    // C06: ticks with a full invariant evaluation / skipped as unchanged
+	other                  bool   // twin oracles: the failure is not attributable to this property
 }
 
 type check struct {
@@ -54,6 +55,7 @@ type check struct {
 	perCase int
 	judge   judgeFn
 	desc    api.Description
+	post    func(res *api.Result)
 }
 
 func (w *check) ID() string { return w.id }
@@ -264,6 +266,10 @@ func (w *check) Run(b api.Batch) *api.Result {
 					res.Count("fired:"+n, int64(st.probes[i]))
 				}
 			}
+			if st.invChecked > 0 {
+				res.Count("ticks_invariants_evaluated", int64(st.invChecked))
+				res.Count("ticks_unchanged_idle_skipped", int64(st.invSkipped))
+			}
 			if st.pairs > 0 {
 				res.Count("value_independence_pairs_compared", int64(st.pairs))
 			}
@@ -313,6 +319,9 @@ func (w *check) Run(b api.Batch) *api.Result {
 			res.Violations = append(res.Violations, api.Violation{Property: w.id, Class: class + "@" + v.String(), Detail: detail,
 				RunIndex: idx, Seed: b.Seed, Replay: encodeCase(mc, "", detail)})
 		}
+	}
+	if w.post != nil {
+		w.post(res)
 	}
 	// violations tagged as known findings carry no payload; keep at most a few
 	sort.SliceStable(res.Violations, func(i, j int) bool { return res.Violations[i].KnownFinding < res.Violations[j].KnownFinding })
